@@ -18,6 +18,7 @@ import (
 	"google.golang.org/protobuf/types/known/structpb"
 
 	"verifsim/kernel"
+	"verifsim/simnet"
 )
 
 type c15Client struct {
@@ -27,6 +28,11 @@ type c15Client struct {
 	extras   []string
 	cstate   *structpb.Struct // client state sent when dialing
 	recState *structpb.Struct // state the operator/token attaches to the node record
+	// network fault private to this client: its dropConn-th connection (0-based) is reset at the dropK-th write of one side
+	drop     bool
+	dropConn int
+	dropSide int
+	dropK    int
 }
 
 type c15Plan struct {
@@ -138,6 +144,33 @@ func c15Run(r *kernel.Run, plan *c15Plan, concurrent bool, tag string) ([]c15Out
 		cls = append(cls, x)
 	}
 	w := NewWire(r, srv, nil, options)
+	// per-client network faults: keyed by the dialing goroutine's name, so that the same client meets the same fault
+	// whether it runs alone or among the others
+	faultOf := map[string]*c15Client{}
+	connsOf := map[string]int{}
+	for _, c := range plan.clients {
+		if c.drop {
+			faultOf[fmt.Sprintf("%s-c%d", tag, c.idx)] = c
+		}
+	}
+	w.Net.NextFault = func(c *simnet.Conn) {
+		who := c.LocalAddr().String()
+		fc := faultOf[who]
+		if fc == nil {
+			return
+		}
+		j := connsOf[who]
+		connsOf[who]++
+		if j != fc.dropConn {
+			return
+		}
+		t := c
+		if fc.dropSide == 1 {
+			t = c.Peer
+		}
+		t.DropAtWrite = fc.dropK
+		r.Count("fault.connection_reset_mid_handshake", 1)
+	}
 	for i := 0; i < plan.acceptors; i++ {
 		w.StartAcceptor(fmt.Sprintf("%s-acceptor%d", tag, i))
 	}
@@ -257,6 +290,9 @@ func propC15(r *kernel.Run) {
 		}
 		if tp.Draw(4) != 0 {
 			c.recState = mk("record-state")
+		}
+		if tp.Draw(5) == 0 {
+			c.drop, c.dropConn, c.dropSide, c.dropK = true, tp.Draw(3), tp.Draw(2), tp.Draw(6)
 		}
 		plan.clients = append(plan.clients, c)
 		kinds = append(kinds, c.kind)
